@@ -224,7 +224,8 @@ def groups_for(pid, tr, wd, rng):
                            cases=[case(cfg, adv=s, seed=rng.randrange(1 << 30), deadline=100, interval=4000) for s in strat for _ in range(2 if big else 1)]))
         # two honest starters that can only complete together with the Byzantine member
         cfg = dict(name="bz2", Members=[1, 2, 3], Starters=[1, 2], Byz=[3], NonMembers=[9], E=3, AdvSet=alphabet([3], [9], [1, 2], [1, 2], [1, 2, 3], 4))
-        strat, total = strategies(wd, cfg, 3 if big else 2, 200 if not big else 8000, rng)
+        # (sets of three over this alphabet are > 10^5 and TLC's dump of them does not finish in 10 min: pairs + the directed liars)
+        strat, total = strategies(wd, cfg, 2, 200 if not big else 8000, rng)
         log("disc bz2: %d adversarial message sets enumerated by TLC, %d executed" % (total, len(strat)))
         groups.append(dict(cfg=cfg, expect_all=False, expect_none=False, enumerated=total,
                            cases=[case(cfg, adv=s, seed=rng.randrange(1 << 30), deadline=100, interval=4000) for s in strat]
